@@ -80,6 +80,7 @@ class UnitSpec:
     rewrites: list[tuple[str, str, str]] = field(default_factory=list)
     items: list[ItemSpec] = field(default_factory=list)
     expect_verified_min: int = 0
+    rlimit: int = 0
 
 
 def parse_vc(path: str) -> UnitSpec:
@@ -95,6 +96,9 @@ def parse_vc(path: str) -> UnitSpec:
                 cur = None
             elif head == "property":
                 u.property = rest
+                cur = None
+            elif head == "rlimit":
+                u.rlimit = int(rest)
                 cur = None
             elif head == "prelude":
                 cur = u.prelude
@@ -557,8 +561,8 @@ def run_unit(vc_path: str, repo: str, workdir: str, rlimit: int | None = None, t
     open(gen, "w").write(text)
     json.dump([o.__dict__ for o in b.origin], open(gen + ".linemap.json", "w"))
     cmd = ["verus", "--edition=2024", gen, "--output-json", "--time-expanded", "--error-format=json", "--num-threads", str(threads), "--multiple-errors", "20"]
-    if rlimit:
-        cmd += ["--rlimit", str(rlimit)]
+    if rlimit or spec.rlimit:
+        cmd += ["--rlimit", str(rlimit or spec.rlimit)]
     env = dict(os.environ)
     p = subprocess.run(cmd, capture_output=True, text=True, cwd=workdir, env=env, timeout=1800)
     wall = time.time() - t0
